@@ -132,6 +132,10 @@ pub fn to_token_stream(this: &Plurals, strings_count: usize) -> TokenStream {
             .get_keys_inner(&mut key_path, &mut captured_values, false)
             .unwrap_at("plurals::to_token_stream_1");
     }
+    // the count is called inside the closure below, which must own a clone of it like the other captured values
+    captured_values
+        .get_interpol_keys_mut()
+        .push_var(this.count_key.clone(), Default::default());
 
     let captured_values = captured_values.is_interpol().map(|keys| {
         let keys = keys
